@@ -178,17 +178,21 @@ class BufferedFile(ClosingContextManager):
             # go for broke
             result = bytearray(self._rbuffer)
             self._rbuffer = bytes()
-            self._pos += len(result)
             while True:
                 try:
                     new_data = self._read(self._DEFAULT_BUFSIZE)
                 except EOFError:
                     new_data = None
+                except Exception:
+                    # interrupted (e.g. socket.timeout on a channel with a
+                    # timeout): what has arrived so far must not be lost
+                    self._rbuffer = bytes(result)
+                    raise
                 if (new_data is None) or (len(new_data) == 0):
                     break
                 result.extend(new_data)
                 self._realpos += len(new_data)
-                self._pos += len(new_data)
+            self._pos += len(result)
             return bytes(result)
         if size <= len(self._rbuffer):
             result = self._rbuffer[:size]
@@ -275,6 +279,11 @@ class BufferedFile(ClosingContextManager):
                 new_data = self._read(n)
             except EOFError:
                 new_data = None
+            except Exception:
+                # interrupted (e.g. socket.timeout on a channel with a
+                # timeout): keep the partial line for the next call
+                self._rbuffer = line
+                raise
             if (new_data is None) or (len(new_data) == 0):
                 self._rbuffer = bytes()
                 self._pos += len(line)
